@@ -150,6 +150,18 @@ def membersOf (w : World ν) (file idx : Nat) : List ν :=
     | none => []
   | none => []
 
+/-- names inserted a second time into one fresh namespace (an enum's variants, an interface's
+    methods): `enum_namespace.add_declaration` / `iface_namespace.add_declaration` report each -/
+def dupNames (seen : List ν) : List ν → List ν
+  | [] => []
+  | x :: xs => if x ∈ seen then x :: dupNames seen xs else dupNames (x :: seen) xs
+
+/-- clashes among the members of the type definitions of a file -/
+def memberClashes (w : World ν) (file : Nat) : List ν :=
+  match w.files[file]? with
+  | some f => f.types.flatMap (fun t => dupNames [] t.members)
+  | none => []
+
 /-- effective namespace of a file -/
 structure Eff (ν : Type) where
   table : Table ν                 -- declarations
